@@ -126,7 +126,7 @@ impl<Req: VClone, Res: VClone, E> Fallback<Req, Res, E> {
         ensures
             r matches Poll::Ready(Ok(_)) ==> final(self).inner.ready@,   // #ready_only_when_inner_ready [C20]
             r matches Poll::Ready(Err(e)) ==> e is Inner,   // #readiness_errors_surface_as_inner [C20]
-            final(self).config == old(self).config,   // #frame
+            final(self).config == old(self).config,   // #shared_state_handles_and_configuration_are_left_untouched [C17]
     //@body Fallback::poll_ready@Service
 
     pub fn call(&mut self, req: Req, clk: &mut Clock, Tracked(tr): Tracked<&mut Trace<Req, Res, E>>) -> (result: Result<Res, FallbackError<E>>)
@@ -136,7 +136,7 @@ impl<Req: VClone, Res: VClone, E> Fallback<Req, Res, E> {
             final(tr).last_done matches Some(Ok(v)) ==> result == Ok::<Res, FallbackError<E>>(v) && final(tr).fb_calls == 0,   // #success_passes_through_and_never_triggers_the_fallback [C17,C20]
             final(tr).last_done matches Some(Err(e)) ==> (!handles(*old(self).config, e) ==> result == Err::<Res, FallbackError<E>>(FallbackError::Inner(e)) && final(tr).fb_calls == 0),   // #unhandled_error_returned_unchanged [C17,C20]
             final(tr).last_done matches Some(Err(e)) ==> (handles(*old(self).config, e) ==> strategy_answer(old(self).config.strategy, req, e, *final(tr), result)),   // #handled_error_gets_exactly_the_strategys_answer [C17]
-            final(self).config == old(self).config,   // #frame
+            final(self).config == old(self).config,   // #shared_state_handles_and_configuration_are_left_untouched [C17]
     //@body Fallback::call@Service
 }
 fn main() {}
